@@ -630,29 +630,32 @@ func ruleStatsPayloadEach(r *Run) {
 				// a return that can carry a nil error: the nil constant, or an error value that is not known to be
 				// non-nil here (`return err` right after `_, err := write(…)` succeeds whenever the write does)
 				mayBeNil := false
+				knownNonNil := func(o ssa.Value) bool {
+					for _, g := range guardsOf(rt.Block()) {
+						a, b, op, ok := g.cmp()
+						if ok && op == token.NEQ && isNilConst(b) && (a == o || p.sameValue(a, o)) {
+							return true
+						}
+					}
+					return false
+				}
 				for _, o := range p.origins(rt.Results[ei], originOpts{local: true}) {
 					if isNilConst(o) {
 						mayBeNil = true
 						continue
 					}
-					knownNonNil := false
-					for _, g := range guardsOf(rt.Block()) {
-						a, b, op, ok := g.cmp()
-						if ok && op == token.NEQ && isNilConst(b) && (a == o || p.sameValue(a, o)) {
-							knownNonNil = true
-						}
-					}
-					if knownNonNil {
+					if knownNonNil(o) {
 						continue
 					}
-					fresh := true
+					// through helpers: what the value can be (a helper that passes a non-nil error on, or wraps it)
 					for _, d := range p.origins(o, originOpts{}) {
-						if !isFreshError(d) {
-							fresh = false
+						switch {
+						case isNilConst(d):
+							mayBeNil = true
+						case isFreshError(d), knownNonNil(d):
+						default:
+							mayBeNil = true
 						}
-					}
-					if !fresh {
-						mayBeNil = true
 					}
 				}
 				if !mayBeNil {
